@@ -5,4 +5,32 @@ ASSUME \A t \in 0..65535 : Dispatch(t) \in {"known", "custom", "unknown"}
 ASSUME \A t \in MsgTypes : t < CustomStart
 ASSUME Cardinality(MsgTypes) = 42 /\ Cardinality(FailCodes) = 25
 ASSUME WriteOk(MaxMsgBody) /\ ~WriteOk(MaxMsgBody + 1) /\ BufAfter(5, MaxMsgBody) = 5 + MaxMsg
+\* value-boundary part of the plan: every message type and every failure code (both failure codecs) gets every
+\* class of every value operator, and nothing else
+ASSUME Len(Ops) = 18 /\ Len(Poss) = 25
+ASSUME \A k \in {"msg", "fail", "pkt"} : \A t \in TypesOf(k) : \A op \in ValOps :
+          {c.pos : c \in {c \in PlanCells : c.kind = k /\ c.t = t /\ c.op = op}} = PosOf(op)
+ASSUME Cardinality({c \in PlanCells : c.op \in ValOps}) = (42 + 25 + 25) * (8 + 4 + 6)
+\* the integer classes sit on both sides of every BigSize width boundary (1|3, 3|5, 5|9 bytes) and of every
+\* fixed-width boundary (1|2, 2|4 (3 for the narrow ones), 4|8 bytes), in increasing order
+ASSUME \A i \in 1..(Len(IntClasses) - 1) : BigSizeWidth(IntClasses[i], 8) <= BigSizeWidth(IntClasses[i + 1], 8)
+                                          /\ Need(IntClasses[i], 8) <= Need(IntClasses[i + 1], 8)
+ASSUME \A b \in {<<1, 3>>, <<3, 5>>, <<5, 9>>} : \E i \in 1..(Len(IntClasses) - 1) :
+          BigSizeWidth(IntClasses[i], 8) = b[1] /\ BigSizeWidth(IntClasses[i + 1], 8) = b[2]
+ASSUME {Need(IntClasses[i], 8) : i \in 1..Len(IntClasses)} = {0, 1, 2, 3, 4, 5, 8}
+\* which classes exist for which field width: a bool has two, a byte four (0, 0xfc, 0xfd, 0xff), ...
+ASSUME \A w \in {0, 1, 2, 4, 8} : Cardinality({c \in Range(IntClasses) : Fits("val-int", c, w)})
+          = CASE w = 0 -> 2 [] w = 1 -> 4 [] w = 2 -> 5 [] w = 4 -> 7 [] OTHER -> 8
+\* the field selection covers every leaf once the repetitions reach the number of leaves
+ASSUME \A nf \in 1..24 : {FieldOf(rep, nf) : rep \in 1..24} = 1..nf
+\* domains: a 3-byte field takes 0x10000 but not 0xffffffff nor "all ones of the uint32"; an encoding type only 0
+ASSUME LET o(f, c, w) == [op |-> "val-int", fld |-> f, pos |-> c, w |-> w, gotype |-> "", t |-> 0] IN
+         /\ InDomain(o("ShortChannelID.BlockHeight", "i10000", 4)) /\ ~InDomain(o("ShortChannelID.BlockHeight", "iffffffff", 4))
+         /\ ~InDomain(o("ShortChannelID.BlockHeight", "imax", 4)) /\ InDomain(o("ShortChannelID.TxPosition", "imax", 2))
+         /\ InDomain(o("OutPoint.Index", "iffff", 4)) /\ ~InDomain(o("OutPoint.Index", "i10000", 4))
+         /\ InDomain(o("InvalidOnionPayload.Type", "imax", 8)) /\ ~InDomain(o("DNSAddress.Port", "i0", 2))
+         /\ InDomain(o("QueryShortChanIDs.EncodingType", "i0", 1)) /\ ~InDomain(o("QueryShortChanIDs.EncodingType", "ifc", 1))
+ASSUME LET o(g, c) == [op |-> "val-bytes", fld |-> "x", pos |-> c, w |-> 32, gotype |-> g, t |-> 257] IN
+         /\ InDomain(o("NodeAlias", "bz")) /\ ~InDomain(o("NodeAlias", "butf")) /\ InDomain(o("ChannelID", "butf"))
+         /\ ~InDomain(o("Musig2Nonce", "b00"))
 ====
